@@ -44,6 +44,14 @@ def fu(x, y, *, t, c=0.5):
     return c * (x - 2 * y) - 3 * t + 1.25
 
 
+def gs(x, y, k=2.0):
+    return np.sin(k * x) + y
+
+
+def gc(x, y, k=2.0):
+    return np.cos(k * x) + y
+
+
 OPS = [operator.add, operator.sub, operator.mul, operator.truediv, operator.pow]
 OPN = ["Add", "Sub", "Mul", "Div", "Pow"]
 
@@ -291,6 +299,12 @@ def run(rep: common.Report, tier: str, seed: int, replay=None) -> int:
         two_td.append(float(((Ua * Ub) + (Ub / 2))(X, Y, t=t_)) == ft(X, Y, t=t_, c=0.5) * fu(X, Y, t=t_, c=0.5) + fu(X, Y, t=t_, c=0.5) / 2)
     kw_checks.append(("two time-dependent operands with equal keyword arguments but different functions each evaluate their own function",
                       all(two_td) and (Ua + Ub).time_dependent and (Ua + Ub) != (Ub + Ub)))
+    # functions of the same shape that differ only in WHICH function they call (same constants, same byte code up to names)
+    Ga, Gb = _t.Parameter(gs, k=2.0), _t.Parameter(gc, k=2.0)
+    kw_checks.append(("leaves wrapping different functions (sin / cos of the same expression) compare unequal, and so do composites over them",
+                      Ga != Gb and not (Ga == Gb) and (Ga * 2 + 1) != (Gb * 2 + 1) and Ga == _t.Parameter(gs, k=2.0)
+                      and pickle.loads(pickle.dumps(Ga + Pa)) != (Gb + Pa)
+                      and float(Ga(X, Y)) == float(gs(X, Y)) and float(Gb(X, Y)) == float(gc(X, Y))))
     Ka, Kb, Kc = _t.Parameter(fk, p=1.0, q=2.0), _t.Parameter(fk, q=2.0, p=1.0), _t.Parameter(fk, p=2.0, q=1.0)
     kw_checks += [
         ("keyword arguments written in another order are the same parameter", Ka == Kb and (Ka * 2) == (Kb * 2)
